@@ -162,7 +162,8 @@ Proof.
     destruct es' as [|e2 es'']; [|exact Hgen].
     inversion IHe as [|? ? He1 _]; subst. destruct He1 as [_ Hb].
     constructor. apply msub_pre. apply msub_pre. apply msub_app; [exact Hb|apply msub_refl].
-  - intros ns ls at_ es l IHes. cbn [m2_stat m_stat]. apply msub_pre. exact (MSe_list es IHes).
+  - intros ns ls at_ es l IHes. cbn [m2_stat m_stat]. apply msub_pre.
+    destruct (init_loc ns ls es l) as [il|]; cbn [region_marks]; [apply msub_wrap|]; exact (MSe_list es IHes).
   - (* SLocalFunc *) intros n nl f l [IHf IHb]. cbn [m2_stat m_stat].
     destruct f; try (apply msub_pre; exact IHf).
     constructor. apply msub_pre. apply msub_pre. apply msub_app; [exact IHb|apply msub_refl].
